@@ -101,11 +101,14 @@ def constructed(depth):
         if True:
             out.append(('app.upgrade_method=%s,applied=%s' % (um, applied),
                         project_of(base_model_sig(), um, applied), False))
-    for ut in ([('a', 'b')], [['a', 'b']], [('a', 'b'), ('b', 'a')]):
+    for ut in ([('a', 'b')], [['a', 'b']], [('a', 'b'), ('b', 'a')],
+               # several groups, declared in an order that is not the
+               # sorted one
+               [('b', 'c'), ('a', 'b')], [('c', 'a'), ('b', 'c'), ('a', 'b')]):
         ms = base_model_sig()
         ms.unique_together = ut
         out.append(('meta.unique_together=%r' % (ut,), project_of(ms), True))
-    for it in ([('a', 'b')], [['a', 'b']]):
+    for it in ([('a', 'b')], [['a', 'b']], [('b', 'c'), ('a', 'b')]):
         ms = base_model_sig()
         ms.index_together = it
         out.append(('meta.index_together=%r' % (it,), project_of(ms), True))
@@ -204,6 +207,40 @@ def check_one(label, sig, v1_ok, add, stats, use_db=True):
             add('C06|v1-pickle-row|raises:%s|%s' % (type(e).__name__,
                                                     kind_of(label)),
                 label, {'label': label, 'error': str(e)[:200]})
+    if v1_ok and 'unique_together' in label:
+        # a stored signature from before the "unique_together applied"
+        # marker existed: it must load as recorded-but-not-applied
+        try:
+            for version in (1, 2):
+                raw = copy.deepcopy(sig.serialize(sig_version=version))
+
+                def strip(x):
+                    if isinstance(x, dict):
+                        x.pop('__unique_together_applied', None)
+                        for v in x.values():
+                            strip(v)
+                    elif isinstance(x, list):
+                        for v in x:
+                            strip(v)
+                strip(raw)
+                back = ProjectSignature.deserialize(raw)
+                want = sig.clone()
+                for a in want.app_sigs:
+                    for m in a.model_sigs:
+                        m._unique_together_applied = False
+                stats['round_trips'] += 1
+                d1, d2 = Diff(want, back), Diff(back, want)
+                if not (back == want) or not (
+                        d1.is_empty(ignore_apps=False) and
+                        d2.is_empty(ignore_apps=False)):
+                    add('C06|v%d-without-applied-marker|%s|%s' % (
+                        version, 'not-equal' if not (back == want) else
+                        'diff-not-empty', kind_of(label)), label,
+                        {'label': label})
+        except Exception as e:
+            add('C06|without-applied-marker|raises:%s|%s' % (
+                type(e).__name__, kind_of(label)), label,
+                {'label': label, 'error': str(e)[:200]})
     if v1_ok:
         try:
             v1 = sig.serialize(sig_version=1)
